@@ -21,7 +21,7 @@ ANCHORS = ["hashtable.py::Counter.count", "hashtable.py::Counter.__init__", "rag
            "raggedshape.py::ViewBase.empty_rows_removed", "hashtable.py::HashTable.__getitem__"]
 FLOOR_TAGS = ["init:default", "init:scalar0", "init:scalar", "init:array", "init:array-fractional", "init:array-uint64", "batch:empty", "batch:nokey", "batch:onlykeys", "batch:mixed", "batch:heavy", "batch:collide",
               "batch:wide", "batch:pylist", "batch:run-length-encoded", "batch:othersign", "batch:huge", "keys>=33", "mod:1", "mod:None", "mod:explicit", "state:first-hit-on-scalar0", "state:first-hit-on-scalar", "state:array", "no-hit-call"]
-FLOOR_MONITORS = ["c12:batch", "c12:twin-read-at-end", "c12:twin-one-batch", "c12:twin-resplit", "c12:twin-modulus"]
+FLOOR_MONITORS = ["c12:batch", "c12:twin-read-at-end", "c12:twin-one-batch", "c12:twin-resplit", "c12:twin-modulus", "c12:twin-sorted"]
 FP_STRICT = True       # a floating-point event inside the library that the dense computation does not have is a violation (shard.FpMonitor)
 N_RANDOM = {"quick": 7500, "thorough": 100000}
 
@@ -157,6 +157,8 @@ def run(case):
     cuts = sorted(c_ for c_ in case.get("cuts", []) if 0 <= c_ <= len(perm))
     pieces = [perm[a_:b_] for a_, b_ in zip([0] + cuts, cuts + [len(perm)])]
     msgs.append(twin("resplit", mod, [typed(p) for p in pieces]))
+    msgs.append(twin("sorted", mod, [typed(sorted(allsamples))]))          # the order of the samples does not matter: neither does sortedness
+    msgs.append(twin("sorted-descending", mod, [typed(sorted(allsamples, reverse=True)[:len(allsamples) // 2]), typed(sorted(allsamples, reverse=True)[len(allsamples) // 2:])]))
     msgs.append(twin("modulus", case.get("mod2"), [typed(allsamples)]))
     for m in msgs:
         if m:
@@ -257,6 +259,12 @@ def gen_history(rng, tier, kd="pick", init=None, mod="pick", nb=None):
             s = [rng.choice(keys) if rng.random() < 0.5 else nonkey() for _ in range(L)]
         s = [x for x in s if x is not None]
         rng.shuffle(s)
+        if rng.random() < 0.15 and s:
+            # a long batch that arrives in order (ascending or descending): many more samples than keys
+            s = sorted(s * (17 * n // len(s) + 2))[:3000]
+            if rng.random() < 0.3:
+                s = s[::-1]
+            b["ordered"] = True
         if rng.random() < 0.12 and s:
             # the batch arrives run-length encoded: runs of different lengths, in a wider dtype with values the key dtype cannot hold in between
             s = [x for x in s for _ in range(rng.randint(1, 4))]
@@ -319,6 +327,19 @@ def directed():
     yield {"keys": [-1, 5], "kdtype": "int64", "mod": None, "mod2": 3, "init": "default", "perm": [], "cuts": [], "batches": [{"kind": "othersign", "samples": [2 ** 64 - 1, 5, 5], "sdtype": "uint64"}]}
     yield {"keys": [-56, 7], "kdtype": "int8", "mod": None, "mod2": 3, "init": 4, "perm": [], "cuts": [], "batches": [{"kind": "othersign", "samples": [200, 7, 200], "sdtype": "uint8"}]}
     yield {"keys": [250, 3], "kdtype": "uint8", "mod": None, "mod2": 2, "init": "default", "perm": [], "cuts": [], "batches": [{"kind": "othersign", "samples": [-6, 3], "sdtype": "int8"}]}
+    # long ordered batches of the other signedness around 2**63: the neighbours of a key beyond 2**53 are not that key
+    yield {"keys": [2 ** 63 - 1, 5, -3], "kdtype": "int64", "mod": None, "mod2": 3, "init": "default", "perm": [], "cuts": [],
+           "batches": [{"kind": "othersign", "samples": [5] * 20 + [2 ** 63 - 1] * 21 + [2 ** 63] * 17 + [2 ** 63 + 1] * 3, "sdtype": "uint64", "ordered": True}]}
+    yield {"keys": [2 ** 63, 7, 2 ** 64 - 1], "kdtype": "uint64", "mod": None, "mod2": 2, "init": 4, "perm": [], "cuts": [],
+           "batches": [{"kind": "othersign", "samples": [-1] * 18 + [7] * 19 + [2 ** 63 - 1] * 25, "sdtype": "int64", "ordered": True}]}
+    yield {"keys": [2 ** 53 + 1, 2 ** 53 + 3, 9], "kdtype": "int64", "mod": None, "mod2": 3, "init": "default", "perm": [], "cuts": [30],
+           "batches": [{"kind": "mixed", "samples": [9] * 18 + [2 ** 53] * 20 + [2 ** 53 + 1] * 17 + [2 ** 53 + 2] * 19 + [2 ** 53 + 3] * 18 + [2 ** 53 + 4] * 9, "ordered": True}]}
+    # every key in one bucket (modulus 1) and thousands of samples in one call: long stretches without any key, then keys
+    big_keys = [i * 7919 - 20000000 for i in range(3000)]
+    nk_ = [i * 7919 - 20000000 + 1 for i in range(7000)]
+    for init in ("default", [i % 4 for i in range(3000)]):
+        yield {"keys": big_keys, "kdtype": "int64", "mod": 1, "mod2": None, "init": init, "perm": [], "cuts": [6000, 8000],
+               "batches": [{"kind": "mixed", "samples": nk_ + big_keys[:2500] + nk_[:50] + big_keys[100:300]}, {"kind": "nokey", "samples": nk_[:6500]}, {"kind": "onlykeys", "samples": big_keys[5:25] * 3}]}
     # samples that wrap onto a key in the key dtype
     yield {"keys": [44, 3], "kdtype": "int8", "mod": None, "mod2": 2, "init": "default", "perm": [], "cuts": [],
            "batches": [{"kind": "wide", "samples": [300, 3, 259, 44, -212], "sdtype": "int64"}]}
